@@ -6,7 +6,7 @@ import Cadence.Proofs.ClientProps
 Integers, durations and lists: proved for the whole range.  Floats: the model carries a float as
 the token `(bits, text)` where `text` is what std's `Display` printed; cadence's code is shown to
 pass that text through unchanged (`float_text_passthrough`), and each sampled float's text is
-checked by the harness to parse back (`str::parse::<f64>`) to the identical bits — the universal
+decided exactly by `RoundTrips` (Check/Float.lean, integer arithmetic) to lie in the rounding interval of the supplied bits — the universal
 claim "for all finite f64" rests on std's shortest-round-trip printing, which is in the trusted
 base, not proved (this clause is **partial**).
 -/
